@@ -117,3 +117,27 @@ def lexical_guards(fi: FunctionInfo, node: ast.AST):
             out.append((anc.test, "T"))
         prev = anc
     return out
+
+
+def atomic_facts(guards):
+    """decompose path conditions [(test ast, 'T'|'F'), ...] into atomic (text, bool) facts:
+    (A or B) false => A false, B false;  (A and B) true => A true, B true;  not A flips."""
+    out = set()
+
+    def add(t, truth):
+        if isinstance(t, ast.UnaryOp) and isinstance(t.op, ast.Not):
+            add(t.operand, not truth)
+        elif isinstance(t, ast.BoolOp) and isinstance(t.op, ast.Or) and not truth:
+            for v in t.values:
+                add(v, False)
+        elif isinstance(t, ast.BoolOp) and isinstance(t.op, ast.And) and truth:
+            for v in t.values:
+                add(v, True)
+        elif isinstance(t, ast.Compare) and len(t.ops) == 1 and isinstance(t.ops[0], (ast.NotEq, ast.NotIn, ast.IsNot)):
+            pos = {ast.NotEq: ast.Eq, ast.NotIn: ast.In, ast.IsNot: ast.Is}[type(t.ops[0])]()
+            add(ast.Compare(left=t.left, ops=[pos], comparators=t.comparators), not truth)
+        else:
+            out.add((" ".join(ast.unparse(t).split()), truth))
+    for t, lab in guards:
+        add(t, lab.startswith("T"))
+    return out
